@@ -8,6 +8,7 @@ import (
 	"math/rand"
 	"net/http"
 	"net/url"
+	"os"
 	"reflect"
 	"strings"
 	"time"
@@ -38,6 +39,7 @@ type chainCase struct {
 	Length  *int      `json:"length"` // MC_Writer lines: bytes accepted by the underlying writer
 	G       int       `json:"g"`      // kind "redispatch": number of global middleware (chain = G ++ redispatcher ++ G ++ inner)
 	B       int       `json:"b"`      // the nested chain starts after position b (the redispatcher, plus the never started tail)
+	CLog    [][]any   `json:"clog"`   // the log of the cursor machine (the code as written), exported for chains beyond the sentinel
 	Tail    int       `json:"tail"`   // 1: the redispatcher is a middleware of its route, the route's main handler follows it
 }
 
@@ -603,6 +605,17 @@ func chainRunOnce(s *Summary, c *chainCase, sp chainSplit, outerPrefix string, c
 		s.mismatch(desc("crash", fmt.Sprintf("chain of %d handlers: ServeHTTP panicked inside rux: %v (after %d log events)", n, run.panicV, len(got))), c)
 		return
 	}
+	if os.Getenv("VERIF_CHAIN_ORDER_ONLY") == "1" {
+		// only which handlers run, in which order (C04 beyond the sentinel: what IsAborted() reports there is finding F20 of C05)
+		strip := func(l [][]any) [][]any {
+			out := make([][]any, len(l))
+			for i, e := range l {
+				out[i] = []any{e[0], e[1], false}
+			}
+			return out
+		}
+		got, want = strip(got), strip(want)
+	}
 	if !(len(got) == 0 && len(want) == 0) && !reflect.DeepEqual(got, want) {
 		aspect := "log"
 		at := 0
@@ -627,6 +640,9 @@ func chainRunOnce(s *Summary, c *chainCase, sp chainSplit, outerPrefix string, c
 		}
 		d := desc(aspect, fmt.Sprintf("chain of %d handlers: event #%d is %v, ideal machine: %v (events are [in|out, handler, IsAborted()])", n, at+1, ev(got, at), ev(want, at)))
 		d["at"] = at + 1
+		// beyond the sentinel the code is known to leave the ideal (finding F20); it is that finding only if the code behaves
+		// EXACTLY as the cursor machine - the model of Context.Next as written - says
+		d["as_cursor_machine"] = c.CLog != nil && reflect.DeepEqual(got, normLog(c.CLog))
 		s.mismatch(d, c)
 		return
 	}
